@@ -571,6 +571,13 @@ fn classify(af: &AFont, spec: &BTreeSet<u32>, orig: &FontRef, subf: Option<&Font
             if msg.contains("Error reading cmap table") {
                 return Some("C17:cmap-dropped-unsupported-encoding-records");
             }
+            // whole-font failures of subsetters outside the model (seen in the thorough tier only)
+            if msg.contains("Subsetting table 'COLR' failed") {
+                return Some("C17:colr-subset-fails");
+            }
+            if msg.contains("Subsetting table 'cmap' failed") {
+                return Some("C17:cmap-subset-fails");
+            }
         }
         Kind::GlyphSet | Kind::Outline | Kind::Metrics(_) => {
             if !matches!(kind, Kind::Metrics(_)) {
@@ -765,7 +772,13 @@ fn oracle(cx: &OracleCtx, req: &Req, res: &Result<Vec<u8>, String>, st: &mut Sta
     }
     st.count("oracle.cases_passed");
     // subset of the subset with the same request: nothing changes
-    if chain {
+    // (if .notdef is a composite and its outline is dropped, its components are kept by the first run and,
+    // no longer referenced, dropped by the second: the same side condition as c17_subset_idempotent)
+    let notdef_composite_emptied = !notdef_kept && matches!(af.glyphs.first(), Some(AG::Comp(..)));
+    if chain && notdef_composite_emptied {
+        st.count("oracle.chain_skipped_notdef_composite");
+    }
+    if chain && !notdef_composite_emptied {
         let req2 = Req { gids: req.gids.iter().filter(|g| spec.contains(g)).map(|g| newid(*g)).collect(), unis: req.unis.clone(), flags: req.flags, label: "again" };
         let res2 = run_subset(sub, &req2);
         st.count("oracle.subset_of_subset");
@@ -1119,7 +1132,13 @@ fn requests(af: &AFont, rng: &mut Rng, count: usize) -> Vec<Req> {
         }
         push(&mut v, "random", g, u, fl(rng));
     }
-    v.truncate(count.max(1));
+    // fewer wanted than the boundary list holds (synthetic fonts): keep one "everything", sample the rest
+    if v.len() > count.max(1) {
+        let mut rest = v.split_off(1);
+        rng.shuffle(&mut rest);
+        rest.truncate(count.max(1) - 1);
+        v.extend(rest);
+    }
     v
 }
 
